@@ -792,3 +792,21 @@ def borrow(index, rep, other_prop, rule_ids, as_rid, tier="quick"):
         if any(e.startswith(r) for r in rule_ids):
             rep.errors.append("%s (borrowed from %s): %s" % (as_rid, other_prop, e))
     return n
+
+
+def reachable_calls(fi, facts):
+    """names of the calls on the nodes reachable from the entry when the tests named in `facts`
+    ({test text: bool}) take the given outcome (normal edges only)."""
+    g = cfg_of(fi)
+
+    def edge_ok(a, lab, b):
+        if lab == "e":
+            return False
+        if a.kind == "test" and norm(a.ast) in facts and lab in ("t", "f"):
+            return (lab == "t") == bool(facts[norm(a.ast)])
+        return True
+    out = set()
+    for n in g.reach([g.entry], follow_exc=False, edge_ok=edge_ok):
+        for c in node_calls(n):
+            out.add(call_name(c))
+    return out
